@@ -144,7 +144,7 @@ UNITS = [
 VERIFIED_CALLEES = ("is_subclass_spec",)
 LEVEL = "other"
 TECHNIQUE = "contract-based deductive verification of the spec-normalisation helpers (VCs from the real AST, complete case analysis of spec shapes) + bounded run-time contract checking on generated class families with a constructor log"
-LEVEL_TEXT = "under construction"
+LEVEL_TEXT = 'Proved: is_subclass_spec is true exactly for a mapping with class_path and only spec keys; subclass_spec_as_namespace makes each short form denote the explicit form (string, init_args / dict_kwargs without class_path, bare arguments) - complete case analysis of spec shapes. The import/subclass check and the per-class parser use import machinery and typing introspection: bounded only (14 classes x 11 declared types x 10 notations, constructor log).'
 LEVEL_NOTE = "under construction"
 EXPLANATION = "under construction"
 ASSUMPTIONS = []
